@@ -51,6 +51,7 @@ VerifyFails(e) ==
   IN
   (IF v.res = "panic" THEN {"panic"} ELSE {})
   \cup (IF v.res = "ok" /\ (Len(vc) # Len(gs) \/ \E i \in 1..Len(vc) : vc[i].reterr # "ok") THEN {"verifier-error-turned-into-success"} ELSE {})
+  \cup (IF v.res = "ok" /\ e.shape = "sign" /\ Len(vc) = Len(gs) /\ \E i \in 1..Len(vc) : vc[i].who # ("k" \o ToString(i)) THEN {"a-supplied-verifier-was-never-consulted"} ELSE {})
   \cup (IF (\A i \in 1..Len(gs) : gs[i] = "") /\ v.res # "ok" THEN {"valid-signatures-rejected"} ELSE {})
   \cup (IF e.shape = "henv" /\ (v.res = "ok") = v.msgnil THEN {"hash-envelope-result-inconsistent-with-error"} ELSE {})
   \cup (IF (\E i \in 1..Len(gs) : gs[i] = "err") /\ v.res = "ErrVerification" /\ FALSE THEN {"unused"} ELSE {})
